@@ -369,17 +369,18 @@ PROPS = {
                 "types/gen/template.go, the twelve types/*/generated.go, the join template literal of join/gen/main.go and the eight "
                 "join/generated_*.go, with the instantiation parameters read from the Makefile's generate rules; the 20 equalities "
                 "`instantiate… template = generated` are kernel-checked (decide +kernel) together with 'every generated file on disk has a rule'. "
-                "(b) typed engine: the pod and service packages and the untyped core run side by side (controller, subscription, monitor each) "
-                "against one fake server whose lists and watch streams mix the package's type with two foreign types; at every quiescent "
-                "point Ready, Done, cache, drained events and monitor callbacks of the typed side must equal the untyped ones restricted to "
-                "the type. (c) rest engine: all twelve typed clients x namespaces {'', a, kube-system, default, x-1} issue random List/Watch "
+                "(b) typed engine: each of the twelve typed packages (round robin) and the untyped core run side by side (controller, "
+                "subscription, monitor, an unread subscription each) against one fake server whose lists and watch streams mix the package's type "
+                "with two foreign types; at every quiescent point Ready, Done, cache, drained events and monitor callbacks of the typed side must "
+                "equal the untyped ones restricted to the type; every fourth scenario publishes more than EventBufsiz own-type events to the unread "
+                "pair, which must keep and lose the same events and close together. (c) rest engine: all twelve typed clients x namespaces {'', a, kube-system, default, x-1} issue random List/Watch "
                 "call sequences through a recording http.RoundTripper; method, path and query of every request must equal the Lean request model. "
                 "Non-trivial: typed observations with events; every rest line.",
         "trusted_base": TREE_TB + [
             "kextract (harness/cmd/kextract: go/scanner tokenisation, dropping import declarations, comments and the template's `type ObjectType generic.Type`; Makefile rule parsing)",
             "import blocks of generated files are not compared (goimports rewrites them); a wrong import cannot compile unnoticed",
             "typed model KcacheModel/Typed.lean (adapter = type assertion; list/events/callbacks mapped through it) written by hand from types/gen/template.go; "
-            "only pod and service are run side by side — the other ten packages are covered through the source-level equalities with the same template",
+            "the per-package adapters of the typed engine (harness/conc/typed_sides_test.go) are textual instances of one adapter",
             "REST model and API table (KcacheModel/Typed.lean: apiTable) written by hand from client/client.go, types/*/client.go and the Kubernetes API group of each type; "
             "client-go's rest.Request path/query construction is exercised for real, the HTTP transport is a recorder",
         ],
